@@ -360,6 +360,10 @@ func runC03(c *run.Ctx) {
 			sn := strings.SplitN(s.name, "/", 2)
 			dn := strings.SplitN(d.name, "/", 2)
 			args := []string{"eval", "--dirpath", dir, "-q", "-p", fmt.Sprint(p), "--protocol", pr}
+			if len(lst.Errs) == 0 && g.P(0.3) { // stop-on-first-error changes nothing when the input has no error at all
+				args = append(args, "--fail")
+				r.Ev("binary_queries_with_fail_flag", 1)
+			}
 			what := ""
 			var want bool
 			mode := k % 3
